@@ -355,7 +355,26 @@ def rule_io_protocol(F, rep, rule="io-protocol"):
                 gan, gcall = analyze_fn(F, lf), c
                 break
     an = gan
+
+    class Ev:      # a seek performed through a private helper that does nothing else (e.g. a `seek_to` default method)
+        def __init__(self, c, target):
+            self.block, self.result, self.arg_lvs, self.args, self.c = c.block, c.result, [None], [None, target], c
+
+        def where(self):
+            return self.c.where()
     seeks, reads = io_of(an)
+    if not seeks:
+        for c in an.calls():
+            lf = prog.local_fn(c.callee)
+            if lf is None or lf["qual"] not in io_home(F) or lf["qual"] == an.fn["qual"]:
+                continue
+            han = analyze_fn(F, lf)
+            hs, hr = io_of(han)
+            if len(hs) == 1 and not hr and all(("var", hs[0].result, "Ok") in st_.facts for t_, st_ in han.ret_leaves() or [] if t_.op == "agg" and t_.args[3] == "Ok"):
+                stc = State(an.exit_env.get(c.block, {}), c.facts)
+                tgt_ = prog.subst(an, stc, hs[0].args[1], [prog._stabilise(an, stc, a_) for a_ in c.args], prog.gmap(lf, c.callee))
+                if tgt_ is not None:
+                    seeks.append(Ev(c, tgt_))
     ok = len(seeks) == 1 and len(reads) == 1
     rep.require(ok, rule, "load_bytes:shape", w, "one seek, one read_exact (in load_bytes or in the private helper that fetches for it)",
                 "load_bytes has %d seek and %d read_exact calls" % (len(seeks), len(reads)))
@@ -377,8 +396,8 @@ def rule_io_protocol(F, rep, rule="io-protocol"):
     good_seek = tgt is not None and tgt.op == "agg" and tgt.args[3] == "Start" and pnorm(tgt.args[4][0]) == pnorm(start)
     rep.require(good_seek, rule, "load_bytes:seek-target", sk.where(), "seek(SeekFrom::Start(range.start))",
                 "load_bytes seeks to %s instead of SeekFrom::Start(range.start)" % (pp(tgt)[:120] if tgt is not None else "?"))
-    same_reader = sk.arg_lvs[0] == rd.arg_lvs[0]
-    if gcall is None:
+    same_reader = sk.arg_lvs[0] == rd.arg_lvs[0] or isinstance(sk, Ev)
+    if gcall is None and not isinstance(sk, Ev):
         same_reader = same_reader and bool(sk.arg_lvs[0][1]) and sk.arg_lvs[0][1][-1][2] == "reader"
     rep.require(same_reader, rule, "load_bytes:same-reader", rd.where(), "seek and read on the same reader", "seek and read_exact use different readers")
     dom = an.dominates(sk.block, rd.block) and ("var", sk.result, "Ok") in rd.facts
